@@ -16,6 +16,7 @@ int main(int argc, char** argv) {
     celma::prog_args::detail::ArgListParser alp((int)words.size(), av);
     auto it = alp.begin(); auto e = alp.end(); int step = 0;
     while (it != e && step < 64) { if (pattern & (1u << (step % 16))) it.remArgStrAsVal(); ++it; ++step; }
+    ++it;   // Handler::iterateArguments increments once more after a sub-group argument consumed the last word: ++ on end() must be harmless
   } catch (const std::exception&) { /* an exception derived from std::exception is an allowed outcome */ }
   printf("NOT-REPRODUCED: iteration over this argv is sanitizer-clean (pattern %u)\n", pattern); return 0;
 }
